@@ -135,6 +135,9 @@ def run(ctx):
                 endafter = rng.randint(1, 8) if (k % 3 == 2 or k == 3) else -1
                 p = dict(threads=nw, blocksize=bs, timeout=to, seed=seed, perturb=[0, 30, 60][k % 3],
                          slicing=1 if k else 0, endafter=endafter, actions=",".join("%s%d" % a for a in acts))
+                if k % 4 in (0, 1):
+                    # the action arrives in a call without new input, after the workers have consumed everything
+                    p["lateact"] = 1
                 jobs.append((g, p, acts))
                 if k == 0 and total > 1000:
                     # lzma_filters_update() between Blocks (after a barrier / flush) and at arbitrary moments:
